@@ -2,6 +2,8 @@
 open Model
 open Rt
 
+let find_probes = [(1,1);(1,2);(1,4);(1,128);(1,132);(1,133);(2,1);(2,2);(2,4);(2,128);(2,133);(25,65);(25,70);(1,99)]
+
 let rec int_of_nat = function O -> 0 | S n -> 1 + int_of_nat n
 let rec nat_of_int i = if i <= 0 then O else S (nat_of_int (i - 1))
 
@@ -107,7 +109,12 @@ let observe id four ap (b : n list) =
         let codes = String.concat "." (List.map (fun (c, _) -> string_of_int (int_of_n c)) m) in
         (match pamap_bytes_len m with Ok n -> Printf.sprintf "%s:%d" codes (int_of_nat n) | _ -> "PANIC")
       | Err -> "E" | Panic -> "PANIC" in
-    Printf.printf "U %s misc fams=%s eor=%s mpnh=%s pamap=%s\n" id fams eor mpnh pamap
+    let fnh = String.concat "," (List.map (fun (a, sf) ->
+        let r = match a_find_next_hop b u (n_of_int a, n_of_int sf) with
+          | Ok (FConv v) -> "uni:" ^ be_hex 4 v | Ok (FMp nh) -> nh_s nh | Err -> "E" | Panic -> "PANIC" in
+        Printf.sprintf "%d.%d:%s" a sf r) find_probes) in
+    Printf.printf "U %s misc fams=%s eor=%s mpnh=%s pamap=%s fnh=%s hasconv=%d hasmp=%d\n" id fams eor mpnh pamap fnh
+      (if a_has_conventional_nlri u then 1 else 0) (if a_has_mp_nlri b u then 1 else 0)
 
 let run (args : String.t list) =
   match args with
